@@ -16,14 +16,16 @@ from odxgen import sexp
 from odxgen import values as V
 
 ID = "C04"
-LEAN_TARGETS = ["OdxVerif.Props.C04", "OdxVerif.Props.C04Struct", "OdxVerif.Props.C04Nested"]
+LEAN_TARGETS = ["OdxVerif.Props.C04", "OdxVerif.Props.C04Struct", "OdxVerif.Props.C04Nested", "OdxVerif.Props.C04Fixes"]
 DRIVERS = ["drv_codec"]
 P = "OdxVerif.Codec."
 THEOREMS = [P + t for t in ["C04_no_silent_corruption_partial", "C04_accepts_iff_representable", "C04_flat", "C04_condensed_counterexample", "encodeMessage_flat_bad", "encodeMessage_flat_unknown", "rawOfInt32_ok", "rawOfInt32_reject",
                             "C04_struct_partial", "C04_struct_never_foreign", "C04_struct_accepts_iff", "encodeMessage_struct_cases", "struct_roundtrip_fill",
                             # nested compositional tier (structures o fields o multiplexers, descriptions without baked-in values)
                             "C04_nested_partial", "C04_nested_never_foreign", "C04_nested_accepts_iff", "encodeMessage_nested_cases", "DescribedP.ok",
-                            "DDesc.struct_ok", "DDesc.staticField_ok", "DDesc.dynLenField_ok", "DDesc.eopField_ok", "DDesc.mux_ok", "PDesc.ofValue_ok"]]
+                            "DDesc.struct_ok", "DDesc.staticField_ok", "DDesc.dynLenField_ok", "DDesc.eopField_ok", "DDesc.mux_ok", "PDesc.ofValue_ok",
+                            # W16: the repaired item loops of the dynamic fields (fix c04-field-item-consumes-nothing)
+                            "C04_field_items_consume_data", "C04_eop_field_items_consume_data", "C04_empty_field_item_rejected", "encodeItems_advances"]]
 RULE = ("direct oracle, model-free: for every description (odxgen, well-formed, loaded through the XML loader) x every assignment of the "
         "control stream (valid values) and of the malformed stream (harness/malformed.py: one damaged site per mutant - boundary +-1 of the "
         "representable range, wrong Python type, over-/under-long and empty strings/byte fields, non-encodable characters, terminators inside "
@@ -531,13 +533,16 @@ def corpus():
     emf = D.EndMarkerField(255, u8(), D.Struct([val("a", u8()), val("b", u8())]))
     out.append(("end-marker-item-collision", D.Composite("RQ", "request", [D.sid(), val("f", emf)]),
                 {"f": [{"a": 1, "b": 2}, {"a": 255, "b": 3}, {"a": 4, "b": 5}]}, None, KNOWN_END_MARKER))
-    # open known finding (forced by the proof of C04_nested_partial: every item of a dynamic field must consume >= 1 byte): the field ENCODERS
-    # accept items that do not occupy data; the decoders (fixes fc2486c / 6869fd8) reject or drop them
+    # fixed finding c04-field-item-consumes-nothing (forced by the proof of C04_nested_partial: every item of a dynamic field must consume
+    # >= 1 byte): the field ENCODERS accepted items that do not occupy data; the decoders (fixes fc2486c / 6869fd8) reject or drop them
     empty = D.Struct([])
     out.append(("field-item-consumes-nothing(dyn-length)", D.Composite("RQ", "request", [D.sid(0x10), val("df", D.DynLenField(1, 0, None, u8(), empty))]),
                 {"df": [{}]}, None, ["field-item-consumes-nothing"]))
     out.append(("field-item-consumes-nothing(end-of-pdu)", D.Composite("RQ", "request", [D.sid(0x10), val("ef", D.EopField(empty))]),
                 {"ef": [{}]}, None, ["field-item-consumes-nothing"]))
+    out.append(("field-item-consumes-nothing(end-marker)",
+                D.Composite("RQ", "request", [D.sid(0x10), val("mf", D.EndMarkerField(255, u8(), empty)), val("y", u8())]),
+                {"mf": [{}], "y": 1}, None, ["field-item-consumes-nothing"]))
     return out
 
 
